@@ -472,5 +472,350 @@ def item_c01_construction_grid(repo, out):
         out.append('Definition construction_grid_%s : Z * (Z * Z) := %s.' % (ver, rows[ver]))
 
 
+# ------------------------------------------------------------------------------------------------ frequency axes (v1-v3)
+
+def _binds_of(init, name):
+    """All statements anywhere in the function that (re)bind the plain name."""
+    hits = []
+    for n in ast.walk(init):
+        if isinstance(n, ast.Assign) and any(isinstance(t, ast.Name) and t.id == name for t in n.targets):
+            hits.append(n)
+        if isinstance(n, ast.AugAssign) and isinstance(n.target, ast.Name) and n.target.id == name:
+            hits.append(n)
+        if isinstance(n, (ast.For, ast.comprehension)) and isinstance(n.target, ast.Name) and n.target.id == name:
+            hits.append(n)
+    return hits
+
+
+def _sole_top(init, name, what):
+    """The only binding of `name` in the function, which must be an unconditional top-level `name = <expr>`."""
+    hits = _binds_of(init, name)
+    if len(hits) != 1 or not isinstance(hits[0], ast.Assign) or hits[0] not in init.body or len(hits[0].targets) != 1:
+        raise TranslateError('%s: %s is bound %d times / conditionally' % (what, name, len(hits)))
+    return hits[0]
+
+
+def _signed_int(node, what):
+    if isinstance(node, ast.UnaryOp) and isinstance(node.op, ast.USub):
+        return -_signed_int(node.operand, what)
+    if isinstance(node, ast.Constant) and isinstance(node.value, int) and not isinstance(node.value, bool):
+        return node.value
+    raise TranslateError('%s: not an integer literal: %s' % (what, ast.unparse(node)))
+
+
+def _exact_int(node, what):
+    """A numeric literal (int or float) with an integral value."""
+    if isinstance(node, ast.Constant) and isinstance(node.value, (int, float)) and not isinstance(node.value, bool):
+        f = Fraction(node.value)
+        if f.denominator == 1:
+            return int(f)
+    raise TranslateError('%s: not an integral literal: %s' % (what, ast.unparse(node)))
+
+
+def _spw_call(node, what):
+    """SpectralWindow(centre, width, num_chans, product[, sideband[, band]]) -> dict parameter -> node."""
+    if not (isinstance(node, ast.Call) and _norm(node.func) == 'SpectralWindow'):
+        raise TranslateError('%s: not a SpectralWindow(...) call: %s' % (what, ast.unparse(node)[:80]))
+    params = ['centre_freq', 'channel_width', 'num_chans', 'product', 'sideband', 'band', 'bandwidth']
+    if any(isinstance(a, ast.Starred) for a in node.args) or any(k.arg is None for k in node.keywords):
+        raise TranslateError('%s: starred arguments' % what)
+    b = dict(zip(params, node.args))
+    for k in node.keywords:
+        if k.arg in b or k.arg not in params:
+            raise TranslateError('%s: keyword %s' % (what, k.arg))
+        b[k.arg] = k.value
+    return b
+
+
+def item_c01_freq_axes(repo, out):
+    """The frequency axis each HDF5 reader builds: which stored attribute feeds which SpectralWindow parameter, the
+    channel-width expression, the sideband (SpectralWindow's default when none is passed; v3: receiver table + the
+    "fake UHF" rule), the KAT-7 LO offset of old v2 files, and the order of the v3 centre-frequency overrides."""
+    from vh.items.c17 import tx, _coerce, OPS
+    rel = 'katdal/spectral_window.py'
+    init = _func(_class(_parse(repo, rel), 'SpectralWindow', rel), '__init__', rel)
+    names = [a.arg for a in init.args.args]
+    if names != ['self', 'centre_freq', 'channel_width', 'num_chans', 'product', 'sideband', 'band', 'bandwidth']:
+        raise TranslateError('SpectralWindow.__init__: parameters are %s' % names)
+    dflt = dict(zip(names[len(names) - len(init.args.defaults):], init.args.defaults))
+    if 'sideband' not in dflt:
+        raise TranslateError('SpectralWindow.__init__: sideband has no default')
+    sb = _signed_int(dflt['sideband'], 'SpectralWindow.__init__ sideband default')
+    if sb not in (1, -1):
+        raise TranslateError('SpectralWindow.__init__: default sideband is %d' % sb)
+    out.append('Definition gen_spw_default_sideband : Z := %s.' % coq_Z(sb))
+
+    def attr_key(node, holder, what):
+        if not (isinstance(node, ast.Subscript) and _norm(node.value) == holder and isinstance(node.slice, ast.Constant)
+                and isinstance(node.slice.value, str)):
+            raise TranslateError('%s: is %s' % (what, ast.unparse(node)[:80]))
+        return node.slice.value
+
+    # ---- v1
+    rel = 'katdal/h5datav1.py'
+    init = _func(_class(_parse(repo, rel), 'H5DataV1', rel), '__init__', rel)
+    keys = []
+    for nm in ('centre_freq', 'channel_width', 'num_chans'):
+        keys.append((nm, attr_key(_sole_top(init, nm, 'H5DataV1.__init__').value, 'corr_group.attrs', 'H5DataV1 ' + nm)))
+    sws = [n for n in ast.walk(init) if isinstance(n, ast.Assign) and 'self.spectral_windows' in [_norm(t) for t in n.targets]]
+    if len(sws) != 1 or sws[0] not in init.body or not isinstance(sws[0].value, ast.List) or len(sws[0].value.elts) != 1:
+        raise TranslateError('H5DataV1.__init__: self.spectral_windows is not one unconditional single-window list')
+    b = _spw_call(sws[0].value.elts[0], 'H5DataV1 spectral window')
+    if [_norm(b.get(k)) if k in b else None for k in ('centre_freq', 'channel_width', 'num_chans')] != \
+            ['centre_freq', 'channel_width', 'num_chans'] or 'bandwidth' in b:
+        raise TranslateError('H5DataV1: SpectralWindow arguments are %s' % sorted((k, _norm(v)) for k, v in b.items()))
+    sb1 = 'None' if 'sideband' not in b else 'Some %s' % coq_Z(_signed_int(b['sideband'], 'H5DataV1 sideband'))
+    guard = [n for n in init.body if isinstance(n, ast.If) and _norm(n.test) == 'num_chans!=data_num_chans'
+             and len(n.body) == 1 and isinstance(n.body[0], ast.Raise) and not n.orelse]
+    if len(guard) != 1:
+        raise TranslateError('H5DataV1.__init__: the channel-count guard is missing')
+    out.append('Definition gen_v1_freq_attrs : list (string * string) := [%s].' % '; '.join(
+        '(%s, %s)' % (coq_string(a), coq_string(k)) for a, k in keys))
+    out.append('Definition gen_v1_sideband : option Z := %s.' % sb1)
+
+    # ---- v2
+    rel = 'katdal/h5datav2.py'
+    init = _func(_class(_parse(repo, rel), 'H5DataV2', rel), '__init__', rel)
+    keys = []
+    for nm in ('num_chans', 'bandwidth'):
+        v = _sole_top(init, nm, 'H5DataV2.__init__').value
+        if not (isinstance(v, ast.Call) and _norm(v.func) == 'get_single_value' and len(v.args) == 2 and not v.keywords
+                and _norm(v.args[0]) == "config_group['Correlator']" and isinstance(v.args[1], ast.Constant)):
+            raise TranslateError('H5DataV2.__init__: %s is %s' % (nm, ast.unparse(v)[:80]))
+        keys.append((nm, v.args[1].value))
+    cw = _sole_top(init, 'channel_width', 'H5DataV2.__init__')
+    env = {'bandwidth': ('Q', 'bandwidth'), 'num_chans': ('Z', 'num_chans')}
+    cw_code = _coerce(tx(cw.value, env, 'v2 channel_width'), 'Q', 'v2 channel_width')
+    cf = _binds_of(init, 'centre_freq')
+    branch = [n for n in init.body if isinstance(n, ast.If) and cf and cf[0] in n.body]
+    if len(cf) != 2 or len(branch) != 1 or cf[1] not in branch[0].orelse:
+        raise TranslateError('H5DataV2.__init__: centre_freq is not bound once in each branch of one test')
+    test = branch[0].test
+    if not (isinstance(test, ast.Compare) and _norm(test.left) == 'self.version' and len(test.ops) == 1
+            and isinstance(test.ops[0], ast.GtE) and isinstance(test.comparators[0], ast.Constant)
+            and isinstance(test.comparators[0].value, str)):
+        raise TranslateError('H5DataV2.__init__: centre_freq branch test is %s' % ast.unparse(test))
+    sens = []
+    for n in cf:
+        v = n.value
+        if not (isinstance(v, ast.Call) and _norm(v.func) == 'self.sensor.get' and len(v.args) == 1 and not v.keywords
+                and isinstance(v.args[0], ast.Constant)):
+            raise TranslateError('H5DataV2.__init__: centre_freq is %s' % ast.unparse(v)[:80])
+        sens.append(v.args[0].value)
+    if [_norm(x) for x in branch[0].body] != [_norm(cf[0])] or len(branch[0].orelse) != 2:
+        raise TranslateError('H5DataV2.__init__: centre_freq branches have extra statements')
+    lo = branch[0].orelse[1]
+    if not (isinstance(lo, ast.Assign) and _norm(lo.targets[0]) == 'centre_freq.unique_values'
+            and isinstance(lo.value, ast.ListComp) and len(lo.value.generators) == 1
+            and _norm(lo.value.generators[0].iter) == 'centre_freq.unique_values' and not lo.value.generators[0].ifs
+            and isinstance(lo.value.generators[0].target, ast.Name)):
+        raise TranslateError('H5DataV2.__init__: LO correction is %s' % ast.unparse(lo)[:100])
+    others = [n for n in ast.walk(init) if isinstance(n, (ast.Assign, ast.AugAssign))
+              and any('centre_freq.unique_values' == _norm(t) for t in (n.targets if isinstance(n, ast.Assign) else [n.target]))]
+    if others != [lo]:
+        raise TranslateError('H5DataV2.__init__: centre_freq.unique_values is modified elsewhere')
+    var = lo.value.generators[0].target.id
+    lo_code = _coerce(tx(lo.value.elt, {var: ('Q', 'freq')}, 'v2 LO correction'), 'Q', 'v2 LO correction')
+    sws = [n for n in ast.walk(init) if isinstance(n, ast.Assign) and 'self.spectral_windows' in [_norm(t) for t in n.targets]]
+    if len(sws) != 1 or sws[0] not in init.body or not isinstance(sws[0].value, ast.ListComp):
+        raise TranslateError('H5DataV2.__init__: self.spectral_windows is not one unconditional comprehension')
+    comp = sws[0].value
+    if len(comp.generators) != 1 or comp.generators[0].ifs or _norm(comp.generators[0].iter) != 'centre_freq.unique_values' \
+            or not isinstance(comp.generators[0].target, ast.Name):
+        raise TranslateError('H5DataV2.__init__: spectral windows are not one per centre_freq.unique_values')
+    b = _spw_call(comp.elt, 'H5DataV2 spectral window')
+    if [_norm(b.get(k)) if k in b else None for k in ('centre_freq', 'channel_width', 'num_chans')] != \
+            [comp.generators[0].target.id, 'channel_width', 'num_chans'] or 'bandwidth' in b:
+        raise TranslateError('H5DataV2: SpectralWindow arguments are %s' % sorted((k, _norm(v)) for k, v in b.items()))
+    sb2 = 'None' if 'sideband' not in b else 'Some %s' % coq_Z(_signed_int(b['sideband'], 'H5DataV2 sideband'))
+    order = [init.body.index(branch[0]), init.body.index(cw), init.body.index(sws[0])]
+    if order != sorted(order):
+        raise TranslateError('H5DataV2.__init__: frequency statements out of order')
+    out.append('Definition gen_v2_freq_attrs : list (string * string) := [%s].' % '; '.join(
+        '(%s, %s)' % (coq_string(a), coq_string(k)) for a, k in keys))
+    out.append('Definition gen_v2_centre_sensors : string * (string * string) := (%s, (%s, %s)).' % (
+        coq_string(test.comparators[0].value), coq_string(sens[0]), coq_string(sens[1])))
+    out.append('Definition gen_v2_channel_width %s (bandwidth : A) (num_chans : Z) : A := %s.' % (OPS, cw_code))
+    out.append('Definition gen_v2_lo_correction %s (freq : A) : A := %s.' % (OPS, lo_code))
+    out.append('Definition gen_v2_sideband : option Z := %s.' % sb2)
+
+    # ---- v3: a dict of SpectralWindow parameters updated statement by statement
+    rel = 'katdal/h5datav3.py'
+    init = _func(_class(_parse(repo, rel), 'H5DataV3', rel), '__init__', rel)
+    body = init.body
+    tops = [_norm(n) for n in body]
+
+    def at(pred, what):
+        hits = [i for i, n in enumerate(body) if pred(n, tops[i])]
+        if len(hits) != 1:
+            raise TranslateError('H5DataV3.__init__: %d statements for %s' % (len(hits), what))
+        return hits[0]
+    i_tab = at(lambda n, t: t.startswith('rx_table='), 'rx_table')
+    tab = body[i_tab].value
+    if not isinstance(tab, ast.Dict):
+        raise TranslateError('H5DataV3.__init__: rx_table is not a dict literal')
+
+    def row(node, what):
+        if not (isinstance(node, ast.Call) and _norm(node.func) == 'dict' and not node.args):
+            raise TranslateError('H5DataV3.__init__: %s is %s' % (what, ast.unparse(node)[:80]))
+        kw = dict((k.arg, k.value) for k in node.keywords)
+        if not set(kw) <= {'band', 'centre_freq', 'sideband'} or 'band' not in kw or 'sideband' not in kw \
+                or not isinstance(kw['band'], ast.Constant):
+            raise TranslateError('H5DataV3.__init__: %s has keys %s' % (what, sorted(kw)))
+        cf_ = 'None' if 'centre_freq' not in kw else 'Some %s' % coq_Z(_exact_int(kw['centre_freq'], what))
+        return '(%s, (%s, %s))' % (coq_string(kw['band'].value), cf_, coq_Z(_signed_int(kw['sideband'], what)))
+    rows = []
+    for k, v in zip(tab.keys, tab.values):
+        if not (isinstance(k, ast.Constant) and isinstance(k.value, str)):
+            raise TranslateError('H5DataV3.__init__: rx_table key %s' % ast.unparse(k))
+        rows.append('(%s, %s)' % (coq_string(k.value), row(v, 'rx_table[%r]' % k.value)))
+    i_get = at(lambda n, t: t.startswith('spw_params=rx_table.get(band,'), 'spw_params = rx_table.get(band, ...)')
+    g = body[i_get].value
+    if len(g.args) != 2 or g.keywords:
+        raise TranslateError('H5DataV3.__init__: rx_table.get arguments')
+    dflt_row = row(g.args[1], 'rx_table default')
+    i_n = at(lambda n, t: t == "num_chans=self._get_l0_attr('n_chans',cbf_group,sdp_group)", 'num_chans')
+    i_bw = at(lambda n, t: t == "bandwidth=self._get_l0_attr('bandwidth',cbf_group,sdp_group)", 'bandwidth')
+    i_bug = at(lambda n, t: isinstance(n, ast.If) and t.startswith('ifbandwidth=='), 'the bandwidth workaround')
+    bug = body[i_bug]
+    if not (len(bug.test.ops) == 1 and isinstance(bug.test.ops[0], ast.Eq) and not bug.orelse
+            and [x for x in bug.body if not isinstance(x, ast.Expr)] and
+            [_norm(x).split('=')[0] for x in bug.body if isinstance(x, ast.Assign)] == ['bandwidth']):
+        raise TranslateError('H5DataV3.__init__: bandwidth workaround not as expected')
+    bug_from = _exact_int(bug.test.comparators[0], 'bandwidth workaround')
+    bug_to = _exact_int([x for x in bug.body if isinstance(x, ast.Assign)][0].value, 'bandwidth workaround')
+    i_rx = at(lambda n, t: isinstance(n, ast.If) and t.startswith("ifspw_params['band']=="), 'the receiver special cases')
+    rx = body[i_rx]
+    if not (len(rx.orelse) == 1 and isinstance(rx.orelse[0], ast.If) and not rx.orelse[0].orelse
+            and isinstance(rx.test.comparators[0], ast.Constant)):
+        raise TranslateError('H5DataV3.__init__: receiver special cases are not if / elif')
+    ku_band = rx.test.comparators[0].value
+    ku_set = [x for x in ast.walk(rx) if isinstance(x, ast.Assign) and _norm(x.targets[0]) == "spw_params['centre_freq']"
+              and x not in rx.orelse[0].body]
+    if len(ku_set) != 1:
+        raise TranslateError('H5DataV3.__init__: Ku branch')
+    ku_code = _coerce(tx(ku_set[0].value, {'siggen_freq': ('Q', 'siggen_freq')}, 'v3 Ku centre'), 'Q', 'v3 Ku centre')
+    fk = rx.orelse[0]
+    ft = fk.test
+    if not (isinstance(ft, ast.BoolOp) and isinstance(ft.op, ast.And) and len(ft.values) == 2
+            and _norm(ft.values[0]).startswith("spw_params['band']==") and isinstance(ft.values[0].comparators[0], ast.Constant)
+            and _norm(ft.values[1]).startswith('bandwidth==') and len(ft.values[1].ops) == 1
+            and isinstance(ft.values[1].ops[0], ast.Eq) and isinstance(ft.values[0].ops[0], ast.Eq)):
+        raise TranslateError('H5DataV3.__init__: fake-UHF test is %s' % ast.unparse(ft))
+    sets = dict((_norm(x.targets[0]), x.value) for x in fk.body if isinstance(x, ast.Assign))
+    if sorted(sets) != ["spw_params['centre_freq']", "spw_params['sideband']"] or len(fk.body) != 2:
+        raise TranslateError('H5DataV3.__init__: fake-UHF branch sets %s' % sorted(sets))
+    fake = (ft.values[0].comparators[0].value, _exact_int(ft.values[1].comparators[0], 'fake UHF bandwidth'),
+            _exact_int(sets["spw_params['centre_freq']"], 'fake UHF centre'),
+            _signed_int(sets["spw_params['sideband']"], 'fake UHF sideband'))
+    i_l0 = at(lambda n, t: isinstance(n, ast.If) and t.startswith('ifl0_centre_freqisnotNone:'), 'the l0 centre frequency')
+    if [_norm(x) for x in body[i_l0].body] != ["spw_params['centre_freq']=l0_centre_freq"] or body[i_l0].orelse:
+        raise TranslateError('H5DataV3.__init__: l0 centre frequency override')
+    i_cw = at(lambda n, t: t.startswith("spw_params['channel_width']="), 'channel_width')
+    cw_code3 = _coerce(tx(body[i_cw].value, env, 'v3 channel_width'), 'Q', 'v3 channel_width')
+    i_mis = at(lambda n, t: isinstance(n, ast.If) and t.startswith('ifnum_chans!=self._vis.shape[1]:'), 'the channel-count fallback')
+    mis = [_norm(x) for x in body[i_mis].body if not _norm(x).startswith('logger.warning(')]
+    if mis != ['num_chans=self._vis.shape[1]', "spw_params.pop('centre_freq',None)"] or body[i_mis].orelse:
+        raise TranslateError('H5DataV3.__init__: channel-count fallback does %s' % mis)
+    i_par = at(lambda n, t: isinstance(n, ast.If) and t.startswith('ifcentre_freq:'), 'the centre_freq parameter')
+    if [_norm(x) for x in body[i_par].body] != ["spw_params['centre_freq']=centre_freq"] or body[i_par].orelse:
+        raise TranslateError('H5DataV3.__init__: centre_freq parameter override')
+    i_def = at(lambda n, t: isinstance(n, ast.If) and t.startswith("if'centre_freq'notinspw_params:"), 'the default centre')
+    dsets = [x for x in body[i_def].body if isinstance(x, ast.Assign)]
+    if len(dsets) != 1 or _norm(dsets[0].targets[0]) != "spw_params['centre_freq']" or body[i_def].orelse:
+        raise TranslateError('H5DataV3.__init__: default centre frequency')
+    dflt_centre = _exact_int(dsets[0].value, 'default centre frequency')
+    i_nc = at(lambda n, t: t == "spw_params['num_chans']=num_chans", 'num_chans parameter')
+    i_sw = at(lambda n, t: t == 'self.spectral_windows=[SpectralWindow(**spw_params)]', 'the spectral window')
+    # nothing else may touch the parameters
+    allowed = set()
+    for i in (i_get, i_rx, i_l0, i_cw, i_mis, i_par, i_def, i_nc):
+        allowed |= set(id(x) for x in ast.walk(body[i]))
+    for n in ast.walk(init):
+        if isinstance(n, (ast.Assign, ast.AugAssign, ast.Delete)) and id(n) not in allowed:
+            tg = n.targets if isinstance(n, (ast.Assign, ast.Delete)) else [n.target]
+            if any(_norm(t).startswith('spw_params') for t in tg):
+                if _norm(n) != "spw_params['product']=self.obs_params.get('product','')":
+                    raise TranslateError('H5DataV3.__init__: spw_params also modified by %s' % ast.unparse(n)[:80])
+        if isinstance(n, ast.Call) and _norm(n.func).startswith('spw_params.') and id(n) not in allowed:
+            raise TranslateError('H5DataV3.__init__: spw_params also modified by %s' % ast.unparse(n)[:80])
+    steps = [(i_get, 1), (i_bug, 2), (i_rx, 3), (i_l0, 4), (i_cw, 5), (i_mis, 6), (i_par, 7), (i_def, 8), (i_nc, 9), (i_sw, 10)]
+    if not (i_tab < i_get and i_n < i_cw and i_bw < i_bug):
+        raise TranslateError('H5DataV3.__init__: frequency statements out of order')
+    prog = [c for _, c in sorted(steps)]
+    out.append('Definition gen_v3_rx_table : list (string * (string * (option Z * Z))) := [%s].' % '; '.join(rows))
+    out.append('Definition gen_v3_rx_default : string * (option Z * Z) := %s.' % dflt_row)
+    out.append('Definition gen_v3_bw_workaround : Z * Z := (%s, %s).' % (coq_Z(bug_from), coq_Z(bug_to)))
+    out.append('Definition gen_v3_ku_band : string := %s.' % coq_string(ku_band))
+    out.append('Definition gen_v3_ku_centre %s (siggen_freq : A) : A := %s.' % (OPS, ku_code))
+    out.append('Definition gen_v3_fake_uhf : string * (Z * (Z * Z)) := (%s, (%s, (%s, %s))).' % (
+        coq_string(fake[0]), coq_Z(fake[1]), coq_Z(fake[2]), coq_Z(fake[3])))
+    out.append('Definition gen_v3_channel_width %s (bandwidth : A) (num_chans : Z) : A := %s.' % (OPS, cw_code3))
+    out.append('Definition gen_v3_default_centre : Z := %s.' % coq_Z(dflt_centre))
+    out.append('(* 1 rx_table.get(band) 2 bandwidth workaround 3 Ku / fake UHF 4 l0 center_freq 5 channel_width 6 channel-count\n'
+               '   fallback 7 centre_freq parameter 8 default centre 9 num_chans 10 the SpectralWindow call *)')
+    out.append('Definition gen_v3_spw_prog : list Z := [%s].' % '; '.join(coq_Z(c) for c in prog))
+
+
+# ------------------------------------------------------------------------------------------------ keepdims
+
+def item_c01_keepdims(repo, out):
+    """The keepdims glue of the v2 / v3 readers: _force_full_dim re-inserts one axis per scalar of the (padded /
+    truncated) second-stage index and is appended LAST to the transforms iff self._keepdims, which is the keepdims
+    argument of the constructor (default False)."""
+    rows = []
+    forms = {
+        'H5DataV2': ('_force_3dim',
+                     ['keep=keep[:3]+(slice(None),)*(3-len(keep))',
+                      'keep_singles=[np.newaxisifnp.isscalar(dim_keep)elseslice(None)fordim_keepinkeep]',
+                      'returndata[tuple(keep_singles)]'],
+                     ["force_3dim=LazyTransform('force_3dim',_force_3dim)",
+                      'transforms=[extractor,force_3dim]ifself._keepdimselse[extractor]',
+                      'returnLazyIndexer(dataset,stage1,transforms)']),
+        'H5DataV3': ('_force_full_dim',
+                     ['keep=keep[:dims]+(slice(None),)*(dims-len(keep))',
+                      'keep_singles=[np.newaxisifnp.isscalar(dim_keep)elseslice(None)fordim_keepinkeep]',
+                      'returndata[tuple(keep_singles)]'],
+                     ["force_full_dim=LazyTransform('force_full_dim',_force_full_dim)", 'transforms=[]',
+                      'ifextractor:transforms.append(extractor)', 'ifself._keepdims:transforms.append(force_full_dim)',
+                      'returnLazyIndexer(dataset,stage1,transforms)'])}
+    for rel, cname in (('katdal/h5datav2.py', 'H5DataV2'), ('katdal/h5datav3.py', 'H5DataV3')):
+        cls = _class(_parse(repo, rel), cname, rel)
+        fn = _func(cls, '_vislike_indexer', rel)
+        fname, want, want_tail = forms[cname]
+        inner = [n for n in fn.body if isinstance(n, ast.FunctionDef) and n.name == fname]
+        if len(inner) != 1 or [a.arg for a in inner[0].args.args] != ['data', 'keep']:
+            raise TranslateError('%s._vislike_indexer: %s(data, keep) not found' % (cname, fname))
+        body = [_norm(n) for n in inner[0].body if not (isinstance(n, ast.Expr) and isinstance(n.value, ast.Constant))]
+        if body != want:
+            raise TranslateError('%s.%s: body is %s' % (cname, fname, body))
+        tail = [_norm(n).replace('\n', '') for n in fn.body[fn.body.index(inner[0]) + 1:]]
+        if tail != want_tail:
+            raise TranslateError('%s._vislike_indexer: transform assembly is %s' % (cname, tail))
+        init = _func(cls, '__init__', rel)
+        sets = [n for n in ast.walk(cls) if isinstance(n, (ast.Assign, ast.AugAssign))
+                and any(_norm(t) == 'self._keepdims' for t in (n.targets if isinstance(n, ast.Assign) else [n.target]))]
+        if len(sets) != 1 or sets[0] not in init.body or _norm(sets[0]) != 'self._keepdims=keepdims':
+            raise TranslateError('%s: self._keepdims is not set once, unconditionally, from the keepdims argument' % cname)
+        names = [a.arg for a in init.args.args]
+        dflt = dict(zip(names[len(names) - len(init.args.defaults):], init.args.defaults))
+        if 'keepdims' not in dflt or _norm(dflt['keepdims']) != 'False':
+            raise TranslateError('%s.__init__: keepdims does not default to False' % cname)
+        # vis / flags / weights all go through _vislike_indexer with the default dims; only the helper indexer of the
+        # per-channel weights (dims=2) has its transforms cleared
+        for prop in ('vis', 'flags', 'weights'):
+            pf = _func(cls, prop, rel)
+            rets = [n for n in ast.walk(pf) if isinstance(n, ast.Return) and n.value is not None and n in pf.body]
+            calls = [n for n in ast.walk(pf) if isinstance(n, ast.Call) and _norm(n.func) == 'self._vislike_indexer']
+            main = [c for c in calls if not any(k.arg == 'dims' for k in c.keywords) and len(c.args) + len(c.keywords) == 2]
+            if len(rets) != 1 or len(main) != 1:
+                raise TranslateError('%s.%s: not one _vislike_indexer(dataset, extract) call' % (cname, prop))
+            clears = [n for n in ast.walk(pf) if isinstance(n, ast.Assign) and _norm(n.targets[0]).endswith('.transforms')]
+            if any(_norm(n.targets[0]) != 'weights_channel.transforms' for n in clears):
+                raise TranslateError('%s.%s: transforms of the returned indexer are modified' % (cname, prop))
+        rows.append('(%s, true)' % coq_string(cname))
+    out.append('Definition keepdims_glue : list (string * bool) := [%s].' % '; '.join(rows))
+
+
 ITEMS = [item_c01_attrs, item_c01_tconv, item_c01_conj, item_c01_weight_names, item_c01_snapshot,
-         item_c01_sensor_grid, item_c01_construction_grid]
+         item_c01_sensor_grid, item_c01_construction_grid, item_c01_freq_axes, item_c01_keepdims]
